@@ -312,6 +312,42 @@ def run(ctx):
             lib.correspond(ctx, res, "h_pass", "loader", fl, comp_holds, exe_args=[bfp], per_chunk=60, line_timeout=900,
                            classify=lambda l, i: "face:" + ("fault" if i.startswith(("fault", "CRASH")) else i.split()[0]),
                            rule="gr_make_face_with_ops on %s with one of its five Graphite tables mutated (exact-size buffers), options 0/2/6: NULL or the numbers of the face (glyphs, features, languages, passes per sub-table) must be what the composed model loadFace says" % bf)
+        # gr_make_face_with_ops over eleven tables: as above, with head hhea hmtx maxp glyf loca served from the line too and one of them
+        # changed (a header number, a loca offset at the end of glyf, a count, cut short, absent) – against loadFaceAll
+        for bf in ("general.ttf", "small.ttf", "grtest1gr.ttf", "Padauk.ttf"):
+            bfp = str(lib.REPO / "tests" / "fonts" / bf)
+            try:
+                tb = sfnt.read_tables(pathlib.Path(bfp))
+            except Exception:
+                continue
+            an = passgen.silf_anatomy(tb["Silf"])
+            big = len(tb["Silf"]) > 40000
+            order = ("head", "hhea", "hmtx", "maxp", "glyf", "loca", "cmap", "Silf", "Gloc", "Glat", "Feat", "Sill")
+            fl = []
+            for k in range((40 if q else 600) if big else (150 if q else 6000)):
+                tabs = {x: tb.get(x, b"") for x in order}
+                if k:
+                    if r.random() < 0.75:
+                        tabs.update(passgen.mutate_gfx_tables(r, {x: tabs[x] for x in order[:7]}))
+                    else:
+                        which = r.choice(["Silf", "Gloc"])
+                        if which == "Silf" and an:
+                            tabs["Silf"] = passgen.mutate_silf(r, tabs["Silf"], an)
+                        else:
+                            tabs["Gloc"], tabs["Glat"] = passgen.mutate_glyph_tables(r, tabs["Gloc"], tabs["Glat"])
+                fl.append("faceall %d 48 %s" % (r.choice([0, 0, 2, 6]), " ".join((tabs[x].hex() or "-") for x in order)))
+            lib.correspond(ctx, res, "h_pass", "loader", fl, comp_holds, exe_args=[bfp], per_chunk=60, line_timeout=900,
+                           classify=lambda l, i: "faceall:" + ("fault" if i.startswith(("fault", "CRASH")) else i.split()[0]),
+                           rule="gr_make_face_with_ops on %s with head, hhea, hmtx, maxp, glyf, loca, cmap and the five Graphite tables served from exact-size buffers, one of them mutated, options 0/2/6: NULL or the numbers of the face must be what loadFaceCmap says" % bf)
+        # the name table: NameTable's constructor and getName on generated tables (records of several platforms, languages and name ids,
+        # strings that end in a high surrogate) with a count, the string offset, a record or the length changed
+        nm = []
+        for _ in range(2500 if q else 100000):
+            pl, en, tab, qs = passgen.gen_name_table(r)
+            nm.append("name %d %d %s %s" % (pl, en, tab.hex() or "-", ",".join("%d.%d" % x for x in qs)))
+        lib.correspond(ctx, res, "h_pass", "loader", nm, comp_holds, exe_args=[str(lib.REPO / "tests" / "fonts" / "small.ttf")], per_chunk=400,
+                       classify=lambda l, i: "name:" + ("fault" if i.startswith(("fault", "CRASH")) else i.split()[0]),
+                       rule="NameTable: generated name tables (Mac and Windows records, 0..10 of them, a few languages and name ids), intact or with count / string offset / a record's offset or length / the length of the table changed; the record range of the platform, the data length and, per query, the language found and the code units handed back must be the model's")
         # the graphics half of read_glyph: TtfUtil's loca / glyf / hmtx look-ups on generated tables (exact-size buffers)
         gx = []
         for _ in range(2500 if q else 100000):
